@@ -8,6 +8,7 @@ Require Import SeliumGen.Backoff.
 Require Import Selium.Regex Selium.TopicSpec Selium.TopicName.
 Require Import Selium.Bytes Selium.Utf8 Selium.Bincode Selium.Wire SeliumGen.Layouts Selium.Transforms Selium.PubSub Selium.PubSubSpec Selium.ReqRep Selium.ReqRepSpec Selium.ClientPubSub Selium.ClientReqRep.
 Require Import Selium.ServerLang Selium.Server SeliumGen.ServerFacts Selium.ServerRun.
+Require Import Selium.Tls SeliumGen.TlsFacts Selium.TlsRun.
 
 Extraction Language OCaml.
 Extraction "model.ml"
@@ -23,4 +24,5 @@ Extraction "model.ml"
   ClientPubSub.subscribe ClientPubSub.publish
   ClientReqRep.crun ClientReqRep.c_done
   TopicName.try_from TopicName.create TopicName.is_valid TopicName.print TopicSpec.name_ok
-  ServerRun.ff ServerRun.client_first_reply ServerRun.prog_keeps_discipline ServerRun.stall_predict Server.lookup.
+  ServerRun.ff ServerRun.client_first_reply ServerRun.prog_keeps_discipline ServerRun.stall_predict Server.lookup
+  TlsRun.matrix.
